@@ -1804,6 +1804,10 @@ impl World for C15 {
         out
     }
 
+    fn builder_kinds() -> &'static [usize] {
+        &[K_HAND, K_TEXT, K_RAW, K_BFOLD, K_HNEW]
+    }
+
     fn op_kind(op: &Op) -> usize {
         match op {
             Op::BuildHand { .. } => K_HAND,
